@@ -77,7 +77,12 @@ def scenarios(tier, seed):
 def scripts_for(rng, ncalls, tier):
     out = [('short1', '(script 1 0)'), ('short3', '(script 3 0)'), ('short7', '(script 7 0)')]
     out.append(('random', '(script 100000 0 %s)' % ' '.join('(a %d)' % rng.range(1, 9) for _ in range(min(ncalls * 3, 400)))))
-    idxs = range(ncalls) if (tier == 'thorough' or ncalls <= 12) else sorted(set([0, 1, 2, ncalls // 2, ncalls - 2, ncalls - 1] + [rng.below(ncalls) for _ in range(6)]))
+    # every call index in the thorough tier, up to 80 of them for the occasional value of thousands of pieces
+    if ncalls <= 12 or (tier == 'thorough' and ncalls <= 80):
+        idxs = range(ncalls)
+    else:
+        extra = 6 if tier != 'thorough' else 70
+        idxs = sorted(set([0, 1, 2, ncalls // 2, ncalls - 2, ncalls - 1] + [rng.below(ncalls) for _ in range(extra)]))
     for k in idxs:
         pre = ' '.join('(a 100000)' for _ in range(k))
         out.append(('fail@%d' % k, '(script 100000 0 %s (f))' % pre))
